@@ -329,6 +329,20 @@ func registerIntrinsics(in *Interp) {
 		return nil
 	}
 	I["vNativeRepeat"] = func(in *Interp, a []Value, _ ssa.CallInstruction) Value { return in.B.Const(in.WordBits, 1) }
+	I["vRecordExtern"] = func(in *Interp, a []Value, _ ssa.CallInstruction) Value {
+		in.recordExtern = a[0].(*sym.Term).IsTrue()
+		return nil
+	}
+	I["vExternCalls"] = func(in *Interp, a []Value, _ ssa.CallInstruction) Value {
+		return in.B.Const(in.WordBits, uint64(len(in.externCalls)))
+	}
+	I["vExternCallAt"] = func(in *Interp, a []Value, _ ssa.CallInstruction) Value {
+		i := in.cint(a[0], "index")
+		if i < 0 || i >= len(in.externCalls) {
+			return ""
+		}
+		return in.externCalls[i]
+	}
 	I["vFailNative"] = func(in *Interp, a []Value, _ ssa.CallInstruction) Value { return nil }
 	I["vSymbolic"] = func(in *Interp, a []Value, _ ssa.CallInstruction) Value { return in.B.True() }
 }
